@@ -1,7 +1,12 @@
 //! Per-property recording commands, one module per property (registered here).
 use crate::Args;
 
+mod c09;
+
 pub fn dispatch(_cmd: &str, _a: &Args) -> bool {
+    if c09::dispatch(_cmd, _a) {
+        return true;
+    }
     match _cmd {
         _ => return false,
     }
